@@ -83,6 +83,7 @@ enum Site : int {
   kFutureRunBeforeNotify = 43,
   kGraphAfterNodeRun = 44,
   kGraphBetweenDependents = 45,
+  kSbaDiagHoldsLock = 46,
   kNumSites = 48
 };
 } // namespace verif
